@@ -20,7 +20,7 @@ EXPLANATION = (
     ' Rounds 7-8: R1 also: the 0x1F / 0xC0 wrapper decoders raise nothing themselves.'
 )
 ASSUMPTIONS = ["slicing never raises; dict.get returns None on a miss"]
-FLOORS = {"C17.R1": 14, "C17.R2": 6, "C17.R3": 6, "C17.R4": 10, "C17.R5": 1, "C17.R6": 1, "C17.R7": 1}
+FLOORS = {"C17.R1": 14, "C17.R2": 6, "C17.R3": 6, "C17.R4": 10, "C17.R5": 1, "C17.R6": 1, "C17.R7": 1, "C17.R8": 1}
 
 
 def run(ctx):
@@ -32,6 +32,10 @@ def run(ctx):
     from .common import reuse
 
     reuse(ctx, "C17.R7", [c07.r5, c07.r9], "after a reset the new connection is consistent and has its reader: is_connected is set together with the streams and the read loop is scheduled at once (C07.R5, C07.R9)")
+    from . import c13
+
+    reuse(ctx, "C17.R8", [lambda c: c13.r3(c, "C13.R3")], "a frame that was read intact (unknown types included: they decode to a stand-in message) is handed to the subscribers whatever the socket is doing at the time (C13.R3)",
+          keep=lambda o: o.construct.startswith("_read:") or o.verdict != "HOLDS")
     reuse(ctx, "C17.R5", [c07.r2, c07.r3], "after malformed input the reset really re-establishes the connection: reset = disconnect + reconnect, every unsuccessful attempt is retried (C07.R2, C07.R3)")
     reuse(ctx, "C17.R6", [c03.r6], "wrappers hand the sub-decoder the rest of the frame and account for the announced sub-lengths, so bytes beyond the declared lengths make the frame incomplete (rejected) instead of being dropped silently (C03.R6)")
 
